@@ -253,6 +253,10 @@ pub struct Hist {
     pub w_laws: usize,
     pub w_mu: usize,
     pub w_absorb: usize,
+    /// relative-order oracle (`RO`, C12); when non-zero the case also ends with `RO`
+    pub w_ro: usize,
+    /// snapshots are only taken (`S`), never merged (types without a state merge)
+    pub snap_only: bool,
     /// deliver everything everywhere at the end (in a discipline-respecting order) before `E`
     pub flush: bool,
     /// end the case with the convergence oracle `E` (only where equal knowledge must give equal state)
@@ -264,7 +268,7 @@ impl Hist {
         Hist {
             ty, min_rep: 2, max_rep: 3, min_steps: 4, max_steps: 16, disc,
             w_gen: 30, w_deliver: 40, w_dup: 6, w_merge: 0, w_snap: 0, w_validate: 0, w_vmerge: 0, w_rr: 0, w_eq: 0,
-            w_persist: 0, w_laws: 0, w_mu: 0, w_absorb: 0, flush: false, end_oracle: true,
+            w_persist: 0, w_laws: 0, w_mu: 0, w_absorb: 0, w_ro: 0, snap_only: false, flush: false, end_oracle: true,
         }
     }
 }
@@ -292,7 +296,7 @@ pub fn history(out: &mut String, rng: &mut Rng, h: &Hist, gen_args: &mut dyn FnM
             Disc::Fifo => ops[j].deps.iter().filter(|d| ops[**d].author == ops[j].author).all(|d| k(*d)),
         }
     };
-    let total = h.w_gen + h.w_deliver + h.w_dup + h.w_merge + h.w_snap + h.w_validate + h.w_vmerge + h.w_rr + h.w_eq + h.w_persist + h.w_laws + h.w_mu + h.w_absorb;
+    let total = h.w_gen + h.w_deliver + h.w_dup + h.w_merge + h.w_snap + h.w_validate + h.w_vmerge + h.w_rr + h.w_eq + h.w_persist + h.w_laws + h.w_mu + h.w_absorb + h.w_ro;
     for _ in 0..steps {
         let mut x = rng.below(total);
         let r = rng.below(n);
@@ -346,7 +350,7 @@ pub fn history(out: &mut String, rng: &mut Rng, h: &Hist, gen_args: &mut dyn FnM
         }
         x -= h.w_merge;
         if x < h.w_snap {
-            if snaps.is_empty() || rng.chance(1, 2) {
+            if h.snap_only || snaps.is_empty() || rng.chance(1, 2) {
                 snaps.push(know[r].clone());
                 writeln!(out, "S {} s{}", r, snaps.len() - 1).unwrap();
             } else {
@@ -408,6 +412,11 @@ pub fn history(out: &mut String, rng: &mut Rng, h: &Hist, gen_args: &mut dyn FnM
             writeln!(out, "AB {}", r).unwrap();
             continue;
         }
+        x -= h.w_absorb;
+        if x < h.w_ro {
+            writeln!(out, "RO").unwrap();
+            continue;
+        }
         writeln!(out, "P {}", r).unwrap();
     }
     if h.flush {
@@ -423,6 +432,9 @@ pub fn history(out: &mut String, rng: &mut Rng, h: &Hist, gen_args: &mut dyn FnM
                 writeln!(out, "D {} o{}", r, j).unwrap();
             }
         }
+    }
+    if h.w_ro > 0 {
+        writeln!(out, "RO").unwrap();
     }
     if h.end_oracle {
         writeln!(out, "E").unwrap();
@@ -1294,6 +1306,11 @@ pub fn main(args: &[String]) {
                 h.w_validate = 6;
                 h.w_eq = 3;
                 h.w_persist = 1;
+                // C12 oracles: absorption of duplicates (AB), relative order across replicas and past states (S + RO)
+                h.w_absorb = 4;
+                h.w_ro = 3;
+                h.w_snap = 4;
+                h.snap_only = true;
                 if contention {
                     h.w_gen = 40;
                     h.w_deliver = 50;
@@ -1316,12 +1333,40 @@ pub fn main(args: &[String]) {
                 });
             }
         }
+        "list_any" => {
+            // List under ARBITRARY delivery order (no discipline): correspondence only – the Lean driver prints the C12
+            // specification only while a replica's knowledge is closed under the discipline; no convergence oracle
+            let mut val = 0u64;
+            for i in 0..cases {
+                let mut h = Hist::new("list", Disc::Any);
+                h.max_rep = 4;
+                h.max_steps = 30;
+                h.w_dup = 8;
+                h.w_validate = 4;
+                h.w_eq = 4;
+                h.w_persist = 1;
+                h.w_absorb = 4;
+                h.w_ro = 3;
+                h.w_snap = 3;
+                h.snap_only = true;
+                h.flush = i % 2 == 0;
+                h.end_oracle = false;
+                history(&mut out, &mut rng, &h, &mut |r, _| {
+                    val += 1;
+                    match r.below(10) {
+                        0..=4 => format!("ins {} {}", r.below(4), val % 50),
+                        5 => format!("append {}", val % 50),
+                        _ => format!("del {}", r.below(3)),
+                    }
+                });
+            }
+        }
         "list_raw" => {
             // raw (possibly ill-formed) List ops: empty identifiers (apply / validate_op panic), stale and gapped
             // dots (gating), inserts on an occupied identifier (or_insert), deletes of absent identifiers
             for _ in 0..cases {
                 let n = 1 + rng.below(2);
-                writeln!(out, "T list {}", n).unwrap();
+                writeln!(out, "T list_raw {}", n).unwrap();
                 let pool: Vec<String> = (0..4)
                     .map(|_| {
                         let d = rng.below(3);
